@@ -45,6 +45,10 @@ mixins_of = SpecMap("mixin_directives_of", lambda d: d, keep_fn=is_mixin)
 base_names = SpecMap("mixin_base_names", lambda d: import_name(d))
 import_stmts = SpecMap("mixin_imports", lambda d: import_stmt(d))
 any_refused = SpecMap("mixin_refused", lambda d: V.VBool(REFUSED(d)))
+# the same three, over ALL directives of the node (filtering inside): for code that walks every directive and skips the others
+base_names_of_all = SpecMap("mixin_base_names_of_all", lambda d: import_name(d), keep_fn=is_mixin)
+import_stmts_of_all = SpecMap("mixin_imports_of_all", lambda d: import_stmt(d), keep_fn=is_mixin)
+any_refused_of_all = SpecMap("mixin_refused_of_all", lambda d: V.VBool(z3.And(is_mixin(d), REFUSED(d))))
 
 
 class ParseMixinArgumentsAtCalls(Contract):
@@ -70,6 +74,12 @@ def _inv(rest, xs, st, I, env):
     imports0 = I.ctx.__dict__["mx_imports0"]
     bases = V.vl(st["extra_base_classes"])
     imports = V.vl(st["self._imports"])
+    dirs = V.vt(V.lower(env.lookup("node").attrs["directives"]))
+    if z3.simplify(xs).eq(z3.simplify(dirs)):
+        # the loop walks all directives of the node (and skips the others itself)
+        return z3.And(append_map_inv(bases, rest, xs, base_names_of_all), append_map_inv(imports, rest, xs, import_stmts_of_all, init=imports0),
+                      any_refused_of_all.any_fn()(rest) == any_refused_of_all.any_fn()(xs))
+    # the loop walks a list of the @mixin directives that was selected before
     return z3.And(append_map_inv(bases, rest, xs, base_names), append_map_inv(imports, rest, xs, import_stmts, init=imports0),
                   any_refused.any_fn()(rest) == any_refused.any_fn()(xs))
 
@@ -100,7 +110,16 @@ class GetExtraBasesFromMixinDirectives(Contract):
         p = A.get("__path__")
         return mixins_of.apply(p, ds) if p is not None else mixins_of(ds)
 
+    def _fusion(self, A):
+        """filter-then-map = map-with-filter over all directives (instances for this node; each by induction on the list)"""
+        ds = V.vt(V.lower(self._dirs))
+        ms = mixins_of(ds)
+        V.LEMMAS.append(base_names(ms) == base_names_of_all(ds))
+        V.LEMMAS.append(import_stmts(ms) == import_stmts_of_all(ds))
+        V.LEMMAS.append(any_refused.any_fn()(ms) == any_refused_of_all.any_fn()(ds))
+
     def ensures(self, A, res):
+        self._fusion(A)
         ms = self._mixins(A)
         i0 = V.vl(V.attr_of(A.self, RT.ResultTypesGenerator, "_imports"))
         i1 = V.vl(V.attr_of(A.final_self, RT.ResultTypesGenerator, "_imports"))
@@ -111,6 +130,7 @@ class GetExtraBasesFromMixinDirectives(Contract):
 
     def on_raise(self, A, exc_cls, exc):
         if exc_cls is EX.ParsingError:
+            self._fusion(A)
             return {"parsing-error-only-when-a-mixin-directive-of-the-node-is-refused": any_refused.any_fn()(self._mixins(A))}
         return {"documented-refusal-only": z3.BoolVal(False)}
 
